@@ -47,5 +47,15 @@ K2 = ("the same span set as local parent twice, nested, on one thread: attachmen
       "collector to order parked attachments by time; properties carry no timestamp.")
 known("C06", "attach-order", "attachments made through the local parent delivered out of issue order (the later one was submitted first: nested scopes of one span)", K2)
 
+# K3: a cancel() parked in the overflow list of a thread that then goes quiet
+K3 = ("cancel() called while the calling thread's command ring is full is parked in that thread's overflow list, which only the thread itself "
+      "replays (at its next command or when it exits). If the thread issues no further command and the cancelled root is finished by ANOTHER "
+      "thread, the commit reaches the collector while the cancel is still parked, and the trace is delivered. History: A fills its ring, "
+      "cancel(r1) on A, a collector cycle empties the ring, A idles (alive), B finishes r1, cycle -> r1 and its child are reported. With one "
+      "ordinary command on A after the cycle the cancel is replayed in time (family C04-ring-remote-finish, which passes). No small safe "
+      "repair: the overflow list is private to the sending thread; the collector would have to be able to drain it.")
+known("C04", "cancel", "root record of a cancelled trace delivered", K3, program="C04-ring-remote-idle*", config="cancelable")
+known("C04", "cancel", "span record of a cancelled trace delivered", K3, program="C04-ring-remote-idle*", config="cancelable")
+
 json.dump({"entries": entries}, open("known_findings.json", "w"), indent=1)
 print(len(entries), "entries")
